@@ -69,6 +69,16 @@ var Catalogue = []Item{
 	{"struct.embedded-method", "type em%dc struct {\n\tx uint64\n}\n\nfunc (a em%dc) get() uint64 {\n\treturn a.x + 1\n}\n\ntype em%dd struct {\n\tem%dc\n\ty uint64\n}\n\nfunc eg%d() uint64 {\n\tv := em%dd{em%dc: em%dc{x: 5}, y: 2}\n\treturn v.get()*10 + v.y\n}\n", "return eg%d()", "uint64"},
 	{"struct.embedded-pointer", "type ep%da struct {\n\tx uint64\n}\n\ntype ep%db struct {\n\t*ep%da\n\ty uint64\n}\n\nfunc ep%d() uint64 {\n\tv := ep%db{ep%da: &ep%da{x: 5}, y: 2}\n\tv.x = v.x + 1\n\treturn v.x*10 + v.y\n}\n", "return ep%d()", "uint64"},
 	{"interface.embedded", "type ie%da interface {\n\tA() uint64\n}\n\ntype ie%db interface {\n\tie%da\n\tB() uint64\n}\n\ntype ie%ds struct {\n\tk uint64\n}\n\nfunc (s ie%ds) A() uint64 {\n\treturn s.k\n}\n\nfunc (s ie%ds) B() uint64 {\n\treturn s.k + 1\n}\n\nfunc ie%df(v ie%db) uint64 {\n\treturn v.A()*10 + v.B()\n}\n\nfunc ie%d() uint64 {\n\treturn ie%df(ie%ds{k: 3})\n}\n", "return ie%d()", "uint64"},
+	{"incdec.elem-side-effect", "type ic%dc struct {\n\tn uint64\n}\n\nfunc (c *ic%dc) next() uint64 {\n\tc.n = c.n + 1\n\treturn c.n - 1\n}\n\nfunc ic%d() uint64 {\n\ta := make([]uint64, 4)\n\tc := &ic%dc{n: 0}\n\ta[c.next()]++\n\ta[c.next()]++\n\treturn a[0]*1000 + a[1]*100 + a[2]*10 + c.n\n}\n", "return ic%d()", "uint64"},
+	{"incdec.elem-u8-wrap", "func iw%d() uint64 {\n\tb := make([]byte, 2)\n\tb[1] = 255\n\tb[1]++\n\treturn uint64(b[1]) + 5\n}\n", "return iw%d()", "uint64"},
+	{"incdec.deref-call", "type id%dc struct {\n\tn uint64\n\tp *uint64\n}\n\nfunc (c *id%dc) cell() *uint64 {\n\tc.n = c.n + 1\n\treturn c.p\n}\n\nfunc id%d() uint64 {\n\tc := &id%dc{n: 0, p: new(uint64)}\n\t*c.cell()++\n\treturn *c.p*10 + c.n\n}\n", "return id%d()", "uint64"},
+	{"incdec.map-elem", "func im%d() uint64 {\n\tm := make(map[uint64]uint64)\n\tm[3] = 4\n\tm[3]--\n\tm[7]++\n\treturn m[3]*10 + m[7]\n}\n", "return im%d()", "uint64"},
+	{"const.untyped-big-shift", "const cb%d = 1 << 70\n\nfunc cbf%d() uint64 {\n\treturn cb%d >> 68\n}\n", "return cbf%d()", "uint64"},
+	{"const.untyped-as-u8", "const cu%d = 200\n\nfunc cuf%d(x byte) byte {\n\treturn x + cu%d\n}\n", "return cuf%d(100)", "byte"},
+	{"const.untyped-as-index", "const ci%dn = 2\n\nfunc cif%d() uint64 {\n\ts := make([]uint64, 4)\n\ts[ci%dn] = 9\n\tvar k uint32 = ci%dn\n\treturn s[2] + uint64(k)\n}\n", "return cif%d()", "uint64"},
+	{"switch.tagless-break-last-in-loop", "func sb%d(n uint64) uint64 {\n\tvar c uint64 = 0\n\tfor i := uint64(0); i < n; i++ {\n\t\tc = c + 1\n\t\tswitch {\n\t\tcase i == 1:\n\t\t\tbreak\n\t\tdefault:\n\t\t\tc = c + 10\n\t\t}\n\t}\n\treturn c\n}\n", "return sb%d(3)", "uint64"},
+	{"switch.tagless-break-under-if-last-in-loop", "func sc%d(n uint64) uint64 {\n\tvar c uint64 = 0\n\tfor i := uint64(0); i < n; i++ {\n\t\tc = c + 1\n\t\tswitch {\n\t\tcase i >= 1:\n\t\t\tif c > 2 {\n\t\t\t\tbreak\n\t\t\t}\n\t\t\tc = c + 100\n\t\tdefault:\n\t\t\tc = c + 10\n\t\t}\n\t}\n\treturn c\n}\n", "return sc%d(4)", "uint64"},
+	{"switch.tagless-multi-cond", "func sm%dt(x uint64) uint64 {\n\tvar r uint64 = 0\n\tswitch {\n\tcase x == 1, x == 3:\n\t\tr = 5\n\tcase x > 10:\n\t\tr = 6\n\tdefault:\n\t\tr = 7\n\t}\n\treturn r\n}\n", "return sm%dt(3)*100 + sm%dt(11)*10 + sm%dt(2)", "uint64"},
 	{"method.value", "type mv%ds struct {\n\tk uint64\n}\n\nfunc (s *mv%ds) get(x uint64) uint64 {\n\treturn s.k + x\n}\n\nfunc mv%d() uint64 {\n\tp := &mv%ds{k: 5}\n\tf := p.get\n\tp.k = 100\n\treturn f(1)\n}\n", "return mv%d()", "uint64"},
 	{"struct.anonymous", "func an%d() uint64 {\n\tv := struct {\n\t\ta uint64\n\t}{a: 4}\n\treturn v.a\n}\n", "return an%d()", "uint64"},
 	{"literal.huge", "func lh%d() uint64 {\n\treturn 18446744073709551616 / 2\n}\n", "return lh%d()", "uint64"},
@@ -210,7 +220,7 @@ var Catalogue = []Item{
 // RejectedAtPin: catalogue constructs that the pinned translator answers with a conversion error. They are the
 // boundary of the accepted subset: a translator that starts to accept one of them has enlarged the subset, and the
 // construct then falls under "accepted programs keep their meaning" (C01) as well as under C02.
-var RejectedAtPin = map[string]bool{"range.int-bound-shrinks": true, "range.int-len-grows": true, "range.int-assign-index": true, "assign.rotate3": true, "assign.swap-deref": true, "assign.swap-params": true, "struct.embedded-init": true, "struct.embedded-explicit": true, "struct.embedded-method": true, "struct.embedded-pointer": true, "interface.embedded": true, "append.multi": true, "array": true, "assign.complex-lvalue": true, "assign.define-captured": true, "assign.define-in-loop": true, "assign.define-local": true, "assign.param": true, "assign.swap": true, "assign.tuple-fib": true, "assign.tuple-swap-elems": true, "break.nested-elseless": true, "closure.loopvar-captured-later": true, "const.iota": true, "const.untyped-global": true, "continue.nested-elseless": true, "defer": true, "defer.early-return": true, "defer.lifo": true, "defer.return-order": true, "define.multi": true, "for.init-assign-param": true, "for.init-assign-var": true, "global.var-mutated": true, "go.args": true, "goto": true, "goto.loop-tail": true, "if.init": true, "if.init-shadow": true, "if.init-then-use-outer": true, "incdec.elem": true, "incdec.field": true, "incdec.global": true, "init.func": true, "int.int32-widen": true, "int.int64-compare": true, "int.int64-div": true, "int.int64-shift": true, "int.int8-widen": true, "int.signed": true, "label.break-outer": true, "label.continue-outer": true, "literal.huge": true, "literal.huge2": true, "lookalike.len": true, "map.literal": true, "method.on-named-slice": true, "named-results": true, "named-results.explicit": true, "nil.func": true, "op.andnot": true, "op.unary-minus": true, "op.unary-plus": true, "opassign.andnot": true, "opassign.div": true, "opassign.mul": true, "opassign.rem": true, "opassign.shl": true, "opassign.shr": true, "range.assign-existing": true, "range.int": true, "results.blank-named": true, "results.named-shadowed": true, "return.else-after-early": true, "return.elseif-chain-elseless": true, "return.in-loop": true, "return.nested-elseless": true, "return.nested-elseless-loop": true, "slice.3index": true, "slice.full": true, "slice.literal-multi": true, "slice.subslice-cap": true, "string.hex-escape": true, "string.index": true, "string.quote-escape": true, "string.range": true, "struct.anonymous": true, "struct.embedded": true, "struct.unkeyed": true, "switch": true, "switch.break-in-loop": true, "switch.break-under-if": true, "switch.continue-in-loop": true, "switch.default-first": true, "switch.fallthrough": true, "switch.tag-effect-once": true, "switch.tagless": true, "type.grouped": true}
+var RejectedAtPin = map[string]bool{"incdec.elem-side-effect": true, "incdec.elem-u8-wrap": true, "incdec.deref-call": true, "incdec.map-elem": true, "const.untyped-big-shift": true, "const.untyped-as-u8": true, "const.untyped-as-index": true, "switch.tagless-break-last-in-loop": true, "switch.tagless-break-under-if-last-in-loop": true, "switch.tagless-multi-cond": true, "range.int-bound-shrinks": true, "range.int-len-grows": true, "range.int-assign-index": true, "assign.rotate3": true, "assign.swap-deref": true, "assign.swap-params": true, "struct.embedded-init": true, "struct.embedded-explicit": true, "struct.embedded-method": true, "struct.embedded-pointer": true, "interface.embedded": true, "append.multi": true, "array": true, "assign.complex-lvalue": true, "assign.define-captured": true, "assign.define-in-loop": true, "assign.define-local": true, "assign.param": true, "assign.swap": true, "assign.tuple-fib": true, "assign.tuple-swap-elems": true, "break.nested-elseless": true, "closure.loopvar-captured-later": true, "const.iota": true, "const.untyped-global": true, "continue.nested-elseless": true, "defer": true, "defer.early-return": true, "defer.lifo": true, "defer.return-order": true, "define.multi": true, "for.init-assign-param": true, "for.init-assign-var": true, "global.var-mutated": true, "go.args": true, "goto": true, "goto.loop-tail": true, "if.init": true, "if.init-shadow": true, "if.init-then-use-outer": true, "incdec.elem": true, "incdec.field": true, "incdec.global": true, "init.func": true, "int.int32-widen": true, "int.int64-compare": true, "int.int64-div": true, "int.int64-shift": true, "int.int8-widen": true, "int.signed": true, "label.break-outer": true, "label.continue-outer": true, "literal.huge": true, "literal.huge2": true, "lookalike.len": true, "map.literal": true, "method.on-named-slice": true, "named-results": true, "named-results.explicit": true, "nil.func": true, "op.andnot": true, "op.unary-minus": true, "op.unary-plus": true, "opassign.andnot": true, "opassign.div": true, "opassign.mul": true, "opassign.rem": true, "opassign.shl": true, "opassign.shr": true, "range.assign-existing": true, "range.int": true, "results.blank-named": true, "results.named-shadowed": true, "return.else-after-early": true, "return.elseif-chain-elseless": true, "return.in-loop": true, "return.nested-elseless": true, "return.nested-elseless-loop": true, "slice.3index": true, "slice.full": true, "slice.literal-multi": true, "slice.subslice-cap": true, "string.hex-escape": true, "string.index": true, "string.quote-escape": true, "string.range": true, "struct.anonymous": true, "struct.embedded": true, "struct.unkeyed": true, "switch": true, "switch.break-in-loop": true, "switch.break-under-if": true, "switch.continue-in-loop": true, "switch.default-first": true, "switch.fallthrough": true, "switch.tag-effect-once": true, "switch.tagless": true, "type.grouped": true}
 
 // Imports lists the standard-library imports an item needs (found by inspection of its text).
 func (it Item) Imports() []string {
